@@ -49,7 +49,8 @@ func (s *Service) SyncCommitteeContribution(ctx context.Context,
 	// We create a cancelable context with a timeout.  When a provider responds we cancel the context to cancel the other requests.
 	ctx, cancel := context.WithTimeout(ctx, s.timeout)
 
-	respCh := make(chan *altair.SyncCommitteeContribution, 1)
+	// Room for every provider's response, so that no provider is left blocked once we have returned.
+	respCh := make(chan *altair.SyncCommitteeContribution, len(s.syncCommitteeContributionProviders))
 	for name, provider := range s.syncCommitteeContributionProviders {
 		go func(ctx context.Context,
 			name string,
